@@ -82,6 +82,15 @@ func cmdFunc(args []string) {
 		if *fnName != "" && c.Func != *fnName {
 			continue
 		}
+		inPkg := false
+		for _, pat := range strings.Split(*pkg, ",") {
+			if strings.HasSuffix(c.PkgPath, strings.TrimPrefix(pat, ".")) {
+				inPkg = true
+			}
+		}
+		if !inPkg {
+			continue
+		}
 		if c.Abstract || c.Trusted || (c.Inline && *fnName == "") {
 			continue
 		}
